@@ -24,13 +24,13 @@ CAUSES = {
     'cname-lost': ['comment-in-info', 'trailing-comment'],
     'attr-lost': ['comment-in-info', 'trailing-comment'],
     'param-lost': ['comment-in-info', 'trailing-comment'],
-    'instance-name': ['comment-in-info', 'trailing-comment', 'names-unconn-substring'],
-    'nets': ['latch3', 'trailing-comment', 'names-unconn-substring'],
+    'instance-name': ['comment-in-info', 'trailing-comment'],
+    'nets': ['latch3', 'trailing-comment'],
     'rt-nets': ['port-bit-unattached'],
-    'instance-definition': ['trailing-comment', 'names-unconn-substring'],
-    'instance-count': ['trailing-comment', 'names-unconn-substring'],
-    'unconn': ['trailing-comment', 'names-unconn-substring'],
-    'covers': ['trailing-comment', 'names-unconn-substring'],
+    'instance-definition': ['trailing-comment'],
+    'instance-count': ['trailing-comment'],
+    'unconn': ['trailing-comment'],
+    'covers': ['trailing-comment'],
     'pin-on-orphan-cable': ['blackbox'],
     'rt-nets-top-pin': ['conn-on-port-net'],
     'reread-raised': ['default-name-clash'],
